@@ -44,13 +44,25 @@ def setup(tier, build=True):
 
 def gen_case(rng, tier, index):
     iface = rng.choice(["sync", "conc", "conc", "conc", "async", "rust",
-                        "rust", "tfdata" if rng.random() < 0.25 else "conc"])
+                        "rust", "tfdata" if rng.random() < 0.5 else "conc"])
     fmts = {"async": ("fb", "npz"), "rust": ("fb",)}.get(
         iface, ("fb", "fb", "npz", "npz", "tfrec"))
     comp = rng.choice(dsgen.RUST_COMPRESSIONS) if iface == "rust" else None
     hist = eread.read_hist(rng, formats=fmts, compression=comp,
                            max_sessions=2)
-    return {"hist": hist, "iface": iface,
+    # "forever": well over a thousand epochs of a tiny split
+    long_run = rng.random() < 0.08
+    if long_run:
+        # (reading a TFRecord shard outside tf.data costs ~25 ms: 4000 shard
+        # reads would take minutes)
+        hist = eread.read_hist(rng, formats=fmts if iface in (
+            "tfdata", "rust", "async") else ("fb", "npz"), compression=comp,
+                               n_examples=rng.choice([1, 2, 3]),
+                               eps=rng.choice([1, 2]))
+    return {"hist": hist, "iface": iface, "long_run": long_run,
+            # tf.data: the same dataset object was iterated (partly) before
+            "tf_reiterate": [rng.randrange(1, 7)
+                             for _ in range(rng.choice([0, 1, 1, 2]))],
             "shuffle_sel": rng.choice([0, 0, 0, 1, 3, "n+7"]),
             "fp_sel": rng.choice([1, 2, 3, "s", "s+1", "s+2", "s+5", "2s+1",
                                   "s-1"]),
@@ -95,6 +107,12 @@ def run_case(case):
         fp = max(1, fp)
         opts = {"repeat": True, "shuffle": sh, "fp": fp,
                 "batch": case.get("batch", 0)}
+        if iface == "tfdata" and case.get("tf_reiterate"):
+            opts["tf_reiterate"] = list(case["tf_reiterate"])
+            probes["tfdata_object_iterated_again"] += 1
+        if case.get("long_run") and N <= 3:
+            case = dict(case, m=1300)
+            probes["more_than_a_thousand_epochs"] += 1
         if iface == "tfdata" and opts["batch"] and N % opts["batch"]:
             probes["tfdata_batch_not_dividing_split"] += 1
         want = case["m"] * N + case["r"]
@@ -260,7 +278,8 @@ def reach(agg):
     for name in ("iface_sync", "iface_conc", "iface_async", "unshuffled",
                  "parallelism_above_shard_count",
                  "parallelism_not_multiple_of_shards",
-                 "two_repeating_streams_interleaved"):
+                 "two_repeating_streams_interleaved",
+                 "more_than_a_thousand_epochs"):
         if not p.get(name):
             need.append(f"probe {name} never hit")
     if bootstrap.RUST_SOURCE not in ("none", "stub") and not p.get(
